@@ -109,6 +109,40 @@ def main(chk):
     J('MACD', 'scalar', ['p', 'p', 'p'], T)
     for spec in ([1, 1, 1], [1, 2, 3], [3, 2, 2], [2, 4, 3]): J('PPO', 'scalar', spec, 6, kind='positive')
     chk.add(run_jobs(jobs))
+    hs = [k_sd_nonneg('SD', 1, 3), k_sd_nonneg('SD', 2, 4), k_sd_nonneg('MAD', 2, 4)]
+    if not q: hs += [k_sd_nonneg('SD', 2, 5), k_sd_nonneg('SD', 3, 5), k_sd_nonneg('MAD', 3, 6)]
+    chk.add(kani.run_family_set('C09', hs, jobs=6, timeout_s=400 if q else 3600))
     chk.assumptions += ['f64 arithmetic modelled as exact real arithmetic in engine R (the cancellation that could drive a float variance negative is engine K\'s part)',
                         'inputs any sign, |x| <= 1e12; bars with low <= high, other fields independent; multiplier in [0, 1000]']
     chk.notes += ['SD >= 0 / not NaN under floating-point cancellation for full-range inputs beyond the Kani bound']
+
+
+# ------------------------------------------------------------------------------------------------ engine K
+from vlib import kani, native
+from vlib.kani import KB, KOps
+
+
+def k_sd_nonneg(name, n, t, bound='1e12'):
+    """the float-specific half: cancellation must never drive the variance negative / NaN"""
+    b = KB('c09_%s_nonneg_n%d_t%d' % (name.lower(), n, t), unwind=n + 3,
+           family='K:C09 %s n=%d: %d finite inputs |x|<=%s, output >= 0 and not NaN (bit-precise, cancellation included)' % (name, n, t, bound),
+           bounds=dict(engine='K', indicator=name, n=n, t=t, inputs='every finite f64 with |x| <= %s' % bound))
+    k = KOps(b)
+    k.new('a', name, [n])
+    outs = []
+    for i in range(t):
+        v = b.anyf('x%d' % i, finite=True, cond='{v} <= %s && {v} >= -%s' % (bound, bound))
+        o = k.feed('a', 'scalar', ('var', v, ('sym', 'x%d' % i)))
+        b.emit('assert!(f64::from_bits(%s[0]) >= 0.0, "dispersion is negative or NaN");' % o)
+
+    def confirm(vals):
+        ops = k.concrete(vals)
+        import math
+        for prof in ('dev', 'release'):
+            lines, res = kani.native_ops(ops, prof)
+            for op, o in zip(ops, res):
+                if op[0] == 'feed' and (o == 'panic' or not (o[0] >= 0.0)):
+                    return True, lines, '%s(%d) returns %r on %r (%s)' % (name, n, o, [kani.hexf(x[2]) for x in ops if x[0] == 'feed'], prof)
+        return False, lines, 'native output non-negative'
+    b.confirm = confirm
+    return b
